@@ -121,6 +121,11 @@ func (c *cronSpec) hit(t time.Time) bool {
 	if !c.min[t.Minute()] || !c.hour[t.Hour()] || !c.mon[int(t.Month())] {
 		return false
 	}
+	return c.dayOK(t)
+}
+
+// dayOK: day-of-month and day-of-week are ANDed when either is a star, ORed when both are restricted.
+func (c *cronSpec) dayOK(t time.Time) bool {
 	d, w := c.dom[t.Day()], c.dow[int(t.Weekday())]
 	if c.domStar || c.dowStar {
 		return d && w
@@ -137,11 +142,20 @@ func (c *cronSpec) nextAfter(ns int64) (int64, bool) {
 		return 0, false
 	}
 	t := time.Unix(0, ns).UTC().Truncate(time.Minute).Add(time.Minute)
-	for i := 0; i < scanLimitMinutes; i++ {
-		if c.hit(t) {
+	end := t.Add(scanLimitMinutes * time.Minute)
+	for t.Before(end) {
+		switch {
+		case !c.mon[int(t.Month())]: // no hit in this month: go to the first minute of the next one
+			t = time.Date(t.Year(), t.Month()+1, 1, 0, 0, 0, 0, time.UTC)
+		case !c.dayOK(t): // no hit on this day
+			t = time.Date(t.Year(), t.Month(), t.Day()+1, 0, 0, 0, 0, time.UTC)
+		case !c.hour[t.Hour()]:
+			t = t.Truncate(time.Hour).Add(time.Hour)
+		case c.hit(t):
 			return t.UnixNano(), true
+		default:
+			t = t.Add(time.Minute)
 		}
-		t = t.Add(time.Minute)
 	}
 	c.never = true
 	return 0, false
